@@ -72,7 +72,7 @@ def b_validate(tier, seed):
         d0 = L(gen.render(root), include_position=True)
         objs = list(_objects(d0, []))
         for opath, obj in objs:
-            for fault in ("unknown", "enum", "type", "arity"):
+            for fault in ("unknown", "enum", "type", "arity", "item"):
                 d = copy.deepcopy(d0)
                 o = _get(d, opath)
                 kw = _inject(o, fault, rnd)
@@ -96,6 +96,31 @@ def b_validate(tier, seed):
                     both = m.validate([d, d0])
                     if len(both) != len(msgs) + len(m.validate(d0)):
                         fails.append(dict(key=f"list:{fault}", doc=key, error="list verdict differs from the per-dictionary verdicts"))
+    # a list of roots of DIFFERENT types (what loads returns for a file with several top-level blocks): the verdict of the list
+    # is the concatenation of the verdicts of its roots, each judged by the schema of its own type - with and without faults
+    roots = []
+    for t in ("layer", "class", "style", "symbol", "map", "label", "web"):
+        node = gen.random_node(t, random.Random(f"{seed}:{t}"))
+        try:
+            roots.append(L(gen.render(node), include_position=True))
+        except Exception:
+            pass
+    for i in range(len(roots)):
+        for j in range(len(roots)):
+            if i == j:
+                continue
+            a, b = copy.deepcopy(roots[i]), copy.deepcopy(roots[j])
+            b["zz_unknown_kw"] = "x"
+            for lst in ([a, b], [b, a], [copy.deepcopy(roots[i]), copy.deepcopy(roots[j])]):
+                n += 1
+                try:
+                    whole = [(x["message"], x["error"]) for x in m.validate(lst)]
+                    parts = [(x["message"], x["error"]) for r in lst for x in m.validate(r)]
+                except Exception as ex:
+                    fails.append(dict(key=f"mixed-list:{lst[0]['__type__']}+{lst[1]['__type__']}", error=_exc(ex)))
+                    continue
+                if whole != parts:
+                    fails.append(dict(key=f"mixed-list:{lst[0]['__type__']}+{lst[1]['__type__']}", whole=whole[:3], parts=parts[:3]))
     # simultaneous faults: an unknown keyword in EVERY object at once, then a value fault in every object that has a slot for one:
     # the statement wants a message for every faulty object / keyword, so each must be reported at its own position
     SIBLINGS = ("MAP\n NAME 'm'\n LAYER\n  NAME 'a'\n  TYPE POINT\n  STATUS ON\n  CLASS\n   NAME 'c1'\n   STYLE\n    WIDTH 1\n   END\n   STYLE\n    WIDTH 2\n   END\n   LABEL\n    SIZE 8\n   END\n   LABEL\n    SIZE 9\n   END\n  END\n"
@@ -183,6 +208,14 @@ def _inject(o, fault, rnd, present_only=False):
         if fault == "arity" and kinds == {"array"} and all(l.get("minItems") for l in lv):
             o[k] = [1]
             return k
+        if fault == "item" and kinds == {"array"} and len(lv) == 1 and isinstance(lv[0].get("items"), dict) \
+                and ("maximum" in lv[0]["items"] or "minimum" in lv[0]["items"]) and lv[0].get("minItems"):
+            it = lv[0]["items"]
+            bad = it["maximum"] + 1000 if "maximum" in it else it["minimum"] - 1000
+            nitems = lv[0]["minItems"]
+            good = it.get("minimum", it.get("maximum", 0)) if "minimum" in it else it["maximum"]
+            o[k] = [good] * (nitems - 1) + [bad]       # the LAST item violates its bound: the error path ends in an item index
+            return k
     return None
 
 
@@ -242,7 +275,7 @@ def b_positions(tier, seed):
         for opath, obj in _objects(d0, []):
             d = copy.deepcopy(d0)
             o = _get(d, opath)
-            kw = _inject(o, "enum", rnd, True) or _inject(o, "type", rnd, True)
+            kw = _inject(o, "item", rnd, True) or _inject(o, "enum", rnd, True) or _inject(o, "type", rnd, True)
             if kw is None:
                 continue
             n += 1
@@ -262,7 +295,25 @@ def b_positions(tier, seed):
             hit = [x for x in msgs if x["message"].endswith(" " + o["__type__"].upper())]
             if not hit or not _at(lines, hit[0].get("line"), hit[0].get("column"), o["__type__"]):
                 fails.append(dict(key=f"object-error-location:{o['__type__']}", msgs=[(x["message"], x.get("line"), x.get("column")) for x in msgs][:3]))
-    return _rec("seam/positions", "generated documents (plain and randomly rendered): the text at every recorded line/column starts with the keyword; injected faults are reported at the keyword / opener", n, fails)
+    # a bound violated by ONE ITEM of a list value (the error path ends in an item index): still located at the keyword,
+    # also when the values stand on later lines than the keyword
+    text = ("MAP\n  SIZE 400 300\n  LEGEND\n    KEYSIZE 20\n      10\n    KEYSPACING 5 5\n  END\n  SCALEBAR\n    SIZE\n      200 3\n"
+            "  END\n  REFERENCE\n    SIZE 100 100\n    IMAGE 'r.png'\n    EXTENT 0 0 1 1\n  END\n  QUERYMAP\n    SIZE 10 10\n  END\nEND")
+    d0 = L(text, include_position=True)
+    lines = text.split("\n")
+    for opath, obj in _objects(d0, []):
+        for kname in [k for k in obj if not k.startswith("__") and isinstance(obj[k], list) and obj[k] and isinstance(obj[k][0], int)]:
+            d = copy.deepcopy(d0)
+            o = _get(d, opath)
+            o[kname] = list(o[kname][:-1]) + [-100000]
+            msgs = m.validate(d)
+            hit = [x for x in msgs if x["message"].endswith(" " + kname.upper())]
+            if not hit:
+                continue          # this keyword has no bound on its items
+            n += 1
+            if not all(_at(lines, h.get("line"), h.get("column"), kname) for h in hit):
+                fails.append(dict(key=f"item-error-location:{o['__type__']}.{kname}", msgs=[(x["message"], x.get("line"), x.get("column")) for x in msgs][:3]))
+    return _rec("seam/positions", "generated documents (plain and randomly rendered): the text at every recorded line/column starts with the keyword; injected faults (also in one item of a list value) are reported at the keyword / opener", n, fails)
 
 
 def _at(lines, line, col, word):
@@ -882,6 +933,64 @@ def b_comments(tier, seed):
             idx = [i for i, l in enumerate(olines) if l.strip() == c]
             if not idx or idx[0] + 1 >= len(olines) or not _next_opener(olines, idx[0]).upper().startswith(word):
                 fails.append(dict(key=f"block-comment-moved:{key}", comment=c, opener=word, next=olines[idx[0] + 1: idx[0] + 2] if idx else None))
+    # /* */ comments that span lines, above openers and after simple keywords (text-based checks: verbatim, once, nothing
+    # invented, output loads to the plain content, placement)
+    for key, root in docs[:: (3 if tier != "thorough" else 1)]:
+        lines = gen.render(root).split("\n")
+        out_lines, above, after, cid = [], {}, {}, 0
+        for ln in lines:
+            st = ln.strip()
+            word = st.split(" ")[0].upper() if st else ""
+            pad = " " * (len(ln) - len(ln.lstrip()))
+            is_opener = (" " not in st) and (word.lower() in SC.object_types() or word in ("METADATA", "VALIDATION", "CONNECTIONOPTIONS"))
+            simple = (" " in st) and not is_opener and word not in ("END", "CONFIG", "PROCESSING", "FORMATOPTION", "INCLUDE", "COMPFILTER") \
+                and not st.startswith('"') and not re.match(r"^[-0-9.]", st)
+            if is_opener and rnd.random() < 0.5:
+                cid += 1
+                c = f"/* above {cid} {word}\n{pad}   continued on a second line */"
+                out_lines.append(pad + c)
+                above[c] = word
+            if simple and rnd.random() < 0.4:
+                cid += 1
+                c = f"/* after {cid}\n{pad}      second line */"
+                out_lines.append(ln + " " + c)
+                after[c] = word
+            else:
+                out_lines.append(ln)
+        if not above and not after:
+            continue
+        ctext = "\n".join(out_lines)
+        n += 1
+        try:
+            out = m.dumps(L(ctext, include_comments=True))
+            want_content = norm(L(ctext))
+            got_content = norm(L(out))
+        except Exception as ex:
+            fails.append(dict(key="multiline-comments:" + key, error=_exc(ex), text=ctext[:300]))
+            continue
+        if got_content != want_content:
+            fails.append(dict(key="multiline-comments-change-content:" + key))
+        blank = re.sub(r'"[^"\n]*"|\'[^\'\n]*\'', '""', out)
+        printed = re.findall(r"/\*.*?\*/|#[^\n]*", blank, flags=re.S)
+        for c in printed:
+            if c not in above and c not in after:
+                fails.append(dict(key="multiline-comment-invented:" + key, comment=c[:80]))
+                break
+        for c, word in list(above.items()) + list(after.items()):
+            k = out.count(c)
+            if k > 1:
+                fails.append(dict(key="multiline-comment-duplicated:" + key, comment=c[:60]))
+            if k != 1:
+                continue      # a comment may be dropped (placement clauses only speak about the ones written)
+            i = out.index(c)
+            if c in above:
+                rest = re.sub(r"^(\s|/\*.*?\*/|#[^\n]*)*", "", out[i + len(c):], flags=re.S)
+                if not rest.upper().startswith(word):
+                    fails.append(dict(key="multiline-comment-not-above-its-block:" + key, comment=c[:60], next=rest[:30]))
+            else:
+                line_start = out.rfind("\n", 0, i) + 1
+                if not out[line_start:i].strip().upper().startswith(word):
+                    fails.append(dict(key="multiline-comment-not-after-its-keyword:" + key, comment=c[:60], before=out[line_start:i][:40]))
     # corpus: verbatim / no duplication / content
     for f in corpus_files()[:: (5 if tier != "thorough" else 1)]:
         with open(f, encoding="utf-8") as fh:
